@@ -114,12 +114,13 @@ theorem recvNUG_cases (a nb : Ty) (fa : a.TG sfh) (hnb : asg cfg sfh nb .undef =
     exfalso
     unfold asgRecv at h
     simp only [Bool.or_eq_true] at h
-    rcases h with (((h | h) | h) | h) | h
+    rcases h with ((((h | h) | h) | h) | h) | h
     · rw [leafF .str rfl (by unfold asgRecv; rfl)] at h; cases h
     · rw [leafF .numeric rfl (by unfold asgRecv; rfl)] at h; cases h
     · rw [leafF (.bool none) rfl (by unfold asgRecv; rfl)] at h; cases h
     · rw [leafF (.regexp "") rfl (by unfold asgRecv; rfl)] at h; cases h
     · rw [leafF (.tspan Rng.all) rfl (by unfold asgRecv; rfl)] at h; cases h
+    · rw [leafF (.tstamp tstampAll) rfl (by unfold asgRecv; rfl)] at h; cases h
   | scalarData =>
     exfalso
     unfold asgRecv at h
@@ -168,7 +169,7 @@ theorem acceptsG_any : ∀ (n : Nat) (a : Ty), a.w ≤ n → a.TG sfh → asg cf
       | scalar =>
         exfalso; unfold asgRecv at h
         simp only [Bool.or_eq_true] at h
-        rcases h with (((h | h) | h) | h) | h <;>
+        rcases h with ((((h | h) | h) | h) | h) | h <;>
           (rw [asg_plain_r cfg sfh _ .any rfl] at h; simp [Ty.isAny, sameNullary, asgRecv, isStringFamily] at h)
       | scalarData =>
         exfalso; unfold asgRecv at h
